@@ -414,6 +414,7 @@ func (f *vFed) vReference(query string, vars map[string]interface{}, opName stri
 	b, _ := json.Marshal(data)
 	var out map[string]interface{}
 	json.Unmarshal(b, &out)
+	vPrune(out)
 	return out, true
 }
 
@@ -460,6 +461,37 @@ func vAssertSame(path string, got, exp interface{}) {
 	default:
 		verifAssert(false, "data"+path+": unexpected reference value")
 	}
+}
+
+// vPrune applies the gateway's documented (unit-tested) pruning to a decoded value: a field whose
+// value is an empty object, or a non-empty list consisting of empty objects only, is dropped.
+func vPrune(v interface{}) (interface{}, bool) {
+	switch x := v.(type) {
+	case map[string]interface{}:
+		for k, e := range x {
+			ne, empty := vPrune(e)
+			if empty {
+				delete(x, k)
+			} else {
+				x[k] = ne
+			}
+		}
+		return x, len(x) == 0
+	case []interface{}:
+		if len(x) == 0 {
+			return x, false
+		}
+		all := true
+		for i, e := range x {
+			ne, empty := vPrune(e)
+			x[i] = ne
+			if _, isObj := ne.(map[string]interface{}); !isObj || !empty {
+				all = false
+			}
+		}
+		return x, all
+	}
+	return v, false
 }
 
 func vNorm(q string) string { return strings.Join(strings.Fields(q), " ") }
